@@ -188,6 +188,17 @@ func (lr *lifeRun) reset(suite []reqSpec) {
 	lr.t.emit(map[string]any{"ev": "Reset"})
 }
 
+// resetKeep starts a new segment that uses the SAME named configurations and the same probe suite as the previous one:
+// the monitor keeps its reference observations, so equal abstract states are compared across histories too.
+func (lr *lifeRun) resetKeep(suite []reqSpec) {
+	if lr.suite == nil {
+		lr.reset(suite)
+		return
+	}
+	lr.mws = map[string]*cors.Middleware{}
+	lr.t.emit(map[string]any{"ev": "Reset", "keep": true})
+}
+
 func (lr *lifeRun) newMW(id, cfgID string, cfg cors.Config) {
 	m, err := cors.NewMiddleware(cfg)
 	lr.t.emit(map[string]any{"ev": "New", "mw": id, "cfg": cfgID, "ok": err == nil, "nilmw": m == nil})
@@ -372,7 +383,7 @@ func cmdLife(args []string) {
 			if err := json.Unmarshal(line, &hist); err != nil {
 				fatal("bad history: %v", err)
 			}
-			lr.reset(abSuite)
+			lr.resetKeep(abSuite)
 			ncases++
 			var ops []string
 			for _, st := range hist {
@@ -425,7 +436,7 @@ func cmdLife(args []string) {
 			if err := json.Unmarshal(line, &hist); err != nil {
 				fatal("bad history: %v", err)
 			}
-			lr.reset(abSuite)
+			lr.resetKeep(abSuite)
 			ncases++
 			args := map[string]*cors.Config{} // the Config last handed to middleware i, still owned by the caller
 			pick := func(c string) *cors.Config {
@@ -501,7 +512,7 @@ func cmdLife(args []string) {
 			if !has {
 				return
 			}
-			lr.reset(abSuite)
+			lr.resetKeep(abSuite)
 			ncases++
 			var ops []string
 			for _, st := range hist {
